@@ -28,6 +28,8 @@ type Family struct {
 	Clock bool // allow clock-advance deviations
 	// Nontrivial: does this item exercise the oracle's interesting branch
 	Nontrivial func(it *Item) bool
+	// OutcomeKey: canonical outcome used to count distinct outcomes (default: hop lists without RTTs)
+	OutcomeKey func(r *Result) string
 
 	mu    sync.Mutex
 	cache map[string][]Item
@@ -95,7 +97,11 @@ func (f *Family) Run(tier string, idx int, r *core.ScnResult) {
 		for _, is := range issues {
 			r.Fail(core.Failure{Key: f.ID + " " + it.Class + "/" + is.Key, What: is.Detail, Scenario: core.JSON(it), Choices: x.Choices(), Bound: cost})
 		}
-		r.Outcome(core.Hash(last.Summary0()))
+		if f.OutcomeKey != nil {
+			r.Outcome(core.Hash(f.OutcomeKey(last)))
+		} else {
+			r.Outcome(core.Hash(last.Summary0()))
+		}
 		if len(issues) == 0 {
 			r.Branch("ok")
 		} else {
